@@ -20,10 +20,11 @@ impl MemoryManager {
 
 pub struct StorageEngine { pub memory_manager: std::sync::Arc<MemoryManager> }
 impl StorageEngine {
+    // ASSUMED: memory-accounting sizes are far below overflow (they are sums of lengths of live objects)
     #[verifier::external_body]
-    pub fn calculate_value_size(&self, key: &[u8], value: &Value) -> usize { unimplemented!() }
+    pub fn calculate_value_size(&self, key: &[u8], value: &Value) -> (r: usize) ensures r <= usize::MAX / 4, { unimplemented!() }
     #[verifier::external_body]
-    pub fn calculate_member_size(&self, member: &[u8]) -> usize { unimplemented!() }
+    pub fn calculate_member_size(&self, member: &[u8]) -> (r: usize) ensures r <= usize::MAX / 4, { unimplemented!() }
 }
 
 /// ghost log of keys marked modified (stands for ShardWatchTracker's per-key counters; assumption 5)
